@@ -90,7 +90,8 @@ Viol ==
   (IF C16_ExitZeroMeansAllDone' THEN {} ELSE {"C16_ExitZeroMeansAllDone"}) \cup
   (IF C16_Isolation' THEN {} ELSE {"C16_Isolation"}) \cup
   (IF C18_Protected' THEN {} ELSE {"C18_Protected"}) \cup
-  (IF C18_OnlyThem' THEN {} ELSE {"C18_OnlyThem"})
+  (IF C18_OnlyThem' THEN {} ELSE {"C18_OnlyThem"}) \cup
+  (IF C18_PlainProcessed' THEN {} ELSE {"C18_PlainProcessed"})
 
 ObsTouched == {Ev.obs.touched[i] : i \in 1..Len(Ev.obs.touched)}
 
